@@ -84,6 +84,9 @@ class Capture:
         self.in_trcl = False
         self.tids = {}
         self.conv_live = None
+        self.cells_dict = None  # the cell dictionary handed to CellConversion
+        self.surf_t4 = None     # the TRIPOLI-4 surface dictionary handed to it
+        self.last_key = None    # largest cell key allocated so far
         self.tr_ids = None      # the set returned by extract_tr_surf_ids
 
     def tr_order(self):
@@ -109,9 +112,9 @@ class Capture:
         out, todo = {}, {key}
         while todo:
             k = todo.pop()
-            if k in out or k not in conv.dic_cell_mcnp:
+            if k in out or k not in self.cells_dict:
                 continue
-            tree = gtree_of(conv.dic_cell_mcnp[k].geometry)
+            tree = gtree_of(self.cells_dict[k].geometry)
             out[int(k)] = tree
             gtree_cells(tree, todo)
         return out
@@ -147,9 +150,16 @@ def hooks(cap):
 
         def __setitem__(self, key, value):
             if cap.up is not None and not cap.up.get('closed') \
-                    and cap.ct_depth == 0 and not cap.in_trcl \
                     and key not in self:
-                cap.up['ops'].append(('fill', int(key)))
+                # every fresh cell key is stored here right after it is
+                # allocated: the counter is observed through this public
+                # dictionary, not through CellConversion's attributes
+                try:
+                    cap.last_key = max(cap.last_key, int(key))
+                except (TypeError, ValueError):
+                    cap.up_unsupported = 'non-integer cell key'
+                if cap.ct_depth == 0 and not cap.in_trcl:
+                    cap.up['ops'].append(('fill', int(key)))
             OrderedDict.__setitem__(self, key, value)
 
     def parse(self):
@@ -162,21 +172,35 @@ def hooks(cap):
             dict_cell = logged
         return dict_cell, skipped
 
-    def init(self, int_cell, int_surf, d_vol, d_surf_t4, d_surf_mcnp, d_cells):
-        orig_init(self, int_cell, int_surf, d_vol, d_surf_t4, d_surf_mcnp,
-                  d_cells)
-        if cap.up is None and isinstance(d_cells, LoggingDict):
+    def init(self, *args, **kwargs):
+        orig_init(self, *args, **kwargs)
+        # the constructor's arguments (public): first free cell key, first
+        # free surface key, volume dict, T4 surface dict, MCNP surface dict,
+        # cell dict
+        if len(args) + len(kwargs) != 6 or kwargs:
+            cap.unsupported = 'CellConversion constructor called otherwise'
+            return
+        int_cell, int_surf, _d_vol, d_surf_t4, _d_surf_mcnp, d_cells = args
+        if cap.conv_live is None:
             cap.conv_live = self
+            cap.cells_dict = d_cells
+            cap.surf_t4 = d_surf_t4
+            try:
+                cap.last_key = int(int_cell)
+            except (TypeError, ValueError):
+                cap.unsupported = 'non-integer first free key'
+                return
+        if cap.up is None and isinstance(d_cells, LoggingDict):
             cap.up = {'cell_keys': [int(k) for k in d_cells],
                       'items0': [(int(key), [int(side) for _, side in value])
-                                 for key, value in d_surf_t4.dic.items()],
+                                 for key, value in d_surf_t4.items()],
                       'free': (int(int_cell), int(int_surf)),
                       'shapes': [], 'ops': []}
 
     def setitem(self, key, value):
         conv = cap.conv_live
         if conv is not None and cap.up is not None \
-                and not cap.up.get('closed') and self is conv.dic_surf_t4:
+                and not cap.up.get('closed') and self is cap.surf_t4:
             try:
                 cap.up['shapes'].append([int(side) for _, side in value])
             except Exception:      # pylint: disable=broad-except
@@ -188,7 +212,7 @@ def hooks(cap):
             and not cap.up.get('closed') and cap.ct_depth == 0
         key = None
         if live:
-            for k, v in self.dic_cell_mcnp.items():
+            for k, v in cap.cells_dict.items():
                 if v.geometry is geometry:
                     key = k
                     break
@@ -243,16 +267,23 @@ def hooks(cap):
         if cap.up is not None:
             cap.up['closed'] = True
         cap.items = [(int(key), [int(side) for _, side in value])
-                     for key, value in self.dic.items()]
+                     for key, value in self.items()]
         return orig_number(self)
 
-    def pot_convert(self, cell, matching, union_ids):
-        if cap.depth == 0:
+    def pot_convert(self, cell, *args, **kwargs):
+        if cap.depth == 0 and cap.cells_dict is not None:
             if cap.key0 is None:
-                cap.key0 = int(self.new_cell_key)
+                # the counter when the cell loop starts = the last key
+                # allocated (every allocation is followed by an insertion into
+                # the cell dictionary), observable only with the logging dict
+                if isinstance(cap.cells_dict, LoggingDict) \
+                        and cap.last_key is not None:
+                    cap.key0 = cap.last_key
+                else:
+                    cap.unsupported = 'cell counter not observable'
                 cap.conv_obj = self
             key = None
-            for k, v in self.dic_cell_mcnp.items():
+            for k, v in cap.cells_dict.items():
                 if v is cell:
                     key = k
                     break
@@ -264,7 +295,7 @@ def hooks(cap):
                 cap.unsupported = str(exc)
         cap.depth += 1
         try:
-            return orig_convert(self, cell, matching, union_ids)
+            return orig_convert(self, cell, *args, **kwargs)
         finally:
             cap.depth -= 1
 
@@ -315,9 +346,9 @@ def hooks(cap):
                     if c in seen:
                         continue
                     seen.add(c)
-                    if c not in conv.dic_cell_mcnp:
+                    if c not in cap.cells_dict:
                         continue
-                    tree = gtree_of(conv.dic_cell_mcnp[c].geometry)
+                    tree = gtree_of(cap.cells_dict[c].geometry)
                     cap.cells[int(c)] = tree
                     gtree_cells(tree, todo)
             except Unsupported as exc:
